@@ -329,3 +329,89 @@ Fixpoint process_shared (shared : list nat) (runs : list (rkind * list nat)) : l
 (* the transition system started with a reporter list that already holds stale errors *)
 Definition init_shared (stale : list nat) : st :=
   {| spawned := 0; joined := 0; ts := fun _ => TNot; flag := false; errors := stale; calls := []; result := None |}.
+
+(* ---------------------------------------------------------------- close_link that raises; with-block; helpers *)
+(* The code as it is: close_links stops at the first member whose close_link() raises (that error propagates, the
+   remaining members are not closed, _is_open keeps its value); in open_links' except path such an error replaces
+   the open failure.  A raising close_link() is outside the property text (C19 quantifies over failing actions and
+   link openings); the theorems about closing carry the premise `no_close_raises`. *)
+Inductive wres :=
+| WOk
+| WOpenFailed (e : err)        (* what open_links raised *)
+| WBody (b : nat)              (* the exception raised by the body of the with-block *)
+| WClose (k : nat).            (* the error raised by close_link() of member k *)
+
+Definition no_close_raises (c : cfg) (close_fails : nat -> bool) : bool :=
+  forallb (fun k => negb (close_fails k)) (seq 0 (n c)).
+
+(* the loop of close_links: members closed (in order) up to and including the first raising one *)
+Fixpoint close_until (c : cfg) (close_fails : nat -> bool) (ks : list nat) : option nat * list nat :=
+  match ks with
+  | [] => (None, [])
+  | k :: r => if close_fails k then (Some k, [inst c k])
+              else let '(o, l) := close_until c close_fails r in (o, inst c k :: l)
+  end.
+
+(* close_links: outcome, _is_open afterwards, members whose close_link() was called (in order) *)
+Definition close_links_f (c : cfg) (is_open : bool) (close_fails : nat -> bool) : wres * bool * list nat :=
+  match close_until c close_fails (seq 0 (n c)) with
+  | (Some k, l) => (WClose k, is_open, l)
+  | (None, l) => (WOk, false, l)
+  end.
+
+(* open_links, r = outcome of the parallel_safe run over open_link() *)
+Definition open_links_f (c : cfg) (is_open : bool) (r : outcome) (close_fails : nat -> bool) : wres * bool * list nat :=
+  if is_open then (WOpenFailed EAlreadyOpen, true, [])
+  else match r with
+       | Returned => (WOk, true, [])
+       | Raised e =>
+           match close_links_f c false close_fails with
+           | (WClose k, o, l) => (WClose k, o, l)          (* the close error replaces the open failure *)
+           | (_, o, l) => (WOpenFailed e, o, l)
+           end
+       end.
+
+(* with Swarm(...) as swarm: body   — result, did the body run, _is_open afterwards, close_link() calls *)
+Definition with_swarm (c : cfg) (r : outcome) (body : option nat) (close_fails : nat -> bool)
+  : wres * bool * bool * list nat :=
+  match open_links_f c false r close_fails with
+  | (WOk, _, _) =>
+      let '(cr, o, cl) := close_links_f c true close_fails in
+      (match cr with WClose k => WClose k | _ => match body with Some b => WBody b | None => WOk end end,
+       true, o, cl)
+  | (w, o, cl) => (w, false, o, cl)
+  end.
+
+(* get_estimated_positions: the action on member k reads log entries of 'stateEstimate' until the first one and
+   stores it under the member's link URI; an empty stream (disconnect before the first sample) stores nothing.
+   `ok k` = the action of member k was run to its end without raising. *)
+Definition pos := (Z * Z * Z)%type.
+Definition positions_after (c : cfg) (uri : nat -> Z) (streams : nat -> list pos) (ok : nat -> bool)
+           (old : Z -> option pos) : Z -> option pos :=
+  fun u => match find (fun k => (uri k =? u) && ok k) (seq 0 (n c)) with
+           | Some k => match streams k with p :: _ => Some p | [] => old u end
+           | None => old u
+           end.
+
+(* reset_estimators: per member  param 'kalman.resetEstimation' := '1'; sleep 0.1; := '0'; then wait until the
+   last ten samples of each variance differ by less than 0.001 (histories start as ten times 1000).
+   Samples are integers here (the harness feeds integer-valued floats), so "< 0.001" is "(max-min)*1000 < 1". *)
+Inductive pcall := PSet (v : Z) | PSleep100ms.
+Definition reset_param_calls : list pcall := [PSet 1; PSleep100ms; PSet 0].
+
+Definition push (w : list Z) (v : Z) : list Z := tl w ++ [v].
+Definition maxl (w : list Z) : Z := fold_left Z.max w (hd 0 w).
+Definition minl (w : list Z) : Z := fold_left Z.min w (hd 0 w).
+Definition stable (w : list Z) : bool := (maxl w - minl w) * 1000 <? 1.
+Definition hist0 : list Z := repeat 1000 10.
+
+(* entries consumed, and whether the loop ended by the break (true) or by the end of the stream (false) *)
+Fixpoint wait_loop (hx hy hz : list Z) (stream : list pos) (consumed : nat) : nat * bool :=
+  match stream with
+  | [] => (consumed, false)
+  | (x, y, z) :: r =>
+      let hx' := push hx x in let hy' := push hy y in let hz' := push hz z in
+      if stable hx' && stable hy' && stable hz' then (S consumed, true)
+      else wait_loop hx' hy' hz' r (S consumed)
+  end.
+Definition wait_for_position_estimator (stream : list pos) : nat * bool := wait_loop hist0 hist0 hist0 stream 0.
